@@ -55,9 +55,26 @@ def kw_call_hook(I, st, f, args, kwargs, node):
         s = core.require(I, s, "kw[%s].pre" % f.k, z3.And(kw_pre(I.repo, d, f.k, schema, value, instance)),
                          "precondition of the keyword function contract (schema object accepted by the draft, schema[k] == value, JSON instance, patterns compile)")
         emp = drafts.K[f.k](o, d, value, instance, schema)
-    gen = Gen("kw:" + f.k, (scope, value.t, instance.t, schema.t), emp,
-              {"keyword": f.k, "function": f.fkey, "value": value, "instance": instance, "schema": schema, "scope": scope})
+    gen = kw_gen(f.k, scope, value, instance, schema, emp)
     return [(s, gen)]
+
+
+def kw_gen(k, scope, value, instance, schema, emp):
+    return Gen("kw:" + k, (scope, value.t, instance.t, schema.t), emp, {"keyword": k})
+
+
+def kw_gen_spec(d):
+    """Gen node of keyword k's contract, built on the spec side (same identity, same emptiness)"""
+    def mk(k, scope, value, instance, schema):
+        o = core.ops_for(d, scope)
+        if k == "$ref":
+            emp = core.Vref(scope, value.t, instance.t)
+        elif k == "format":
+            emp = z3.BoolVal(True)
+        else:
+            emp = drafts.K[k](o, d, value, instance, schema)
+        return kw_gen(k, scope, value, instance, schema, emp)
+    return mk
 
 
 class PushScope(core.Contract):
@@ -188,6 +205,7 @@ class CoreTask:
         st.unit = unit
         st.closure = ctx.config["create_closure"]
         spec = V_def_rebased(repo, d, B, schema, instance)
+        tabs_d = list(tables_mod.draft_tables(repo)[d].keywords)
         outs = I.run_unit(unit, st, [validator, instance, schema], {})
         res["paths"] = len(outs)
         obls = list(ctx.obligations)
@@ -205,6 +223,18 @@ class CoreTask:
                                  note="empty(iter_errors(instance, schema)) <=> V_def(d, B, schema, instance)")
             ob.alt_goal = _iter_alt(emp, spec)
             obls.append(ob)
+            # C05/C06: structural equation of the dispatch loop
+            from contracts import structure
+            from pyvc import seqmatch
+            sname = "%s/F/structure#%d" % (self.name, nf)
+            try:
+                exp = structure.expected_iter_errors(repo, d, tabs_d, B, instance, schema, kw_gen_spec(d))
+                facts = seqmatch.match(cat(*s.out), exp, s.pc)
+                obls.append(core.Obligation(sname, "F", s.pc, z3.And(facts) if facts else z3.BoolVal(True),
+                                            note="iter_errors == concat over the schema's members of fin_k(keyword_k(value, instance, schema)) (C05, C06)"))
+            except seqmatch.Mismatch as e:
+                res["obligations"].append({"name": sname, "kind": "F", "status": "failed", "solver": "seqmatch", "time_s": 0.0,
+                                           "note": "dispatch structure differs from the expected one: %s" % e, "reason": str(e)})
             # X: the scope stack is restored on every normal exit
             depth = z3.simplify(s.ghost["depth"])
             obx = core.Obligation("%s/X/balance#%d" % (self.name, nf), "X", s.pc, depth == 0,
@@ -261,8 +291,10 @@ class CoreTask:
                 kw = {}
                 if pth:
                     kw["path"] = SV(z3.Const("path_elem", V))
+                    st.pc.append(kind(kw["path"].t) != K_NONE)
                 if sp:
                     kw["schema_path"] = SV(z3.Const("spath_elem", V))
+                    st.pc.append(kind(kw["schema_path"].t) != K_NONE)
                 outs = I.run_unit(unit, st, [validator, instance, schema], kw)
                 res["paths"] += len(outs)
                 all_obls += list(ctx.obligations)
@@ -275,6 +307,23 @@ class CoreTask:
                     all_obls.append(core.Obligation("%s/F/verdict#%d" % (self.name, n), "F", s.pc,
                                                     emp == core.Vp(B, schema.t, instance.t),
                                                     note="empty(descend(instance, schema, path=%s, schema_path=%s)) <=> empty(iter_errors(instance, schema))" % (pth, sp)))
+                    # C06: each error of iter_errors(instance, schema), with path / schema_path prepended when given
+                    from pyvc import seqmatch
+                    gen = Gen("iter_errors", (B, schema.t, instance.t, None, None), core.Vp(B, schema.t, instance.t), {})
+                    elem = ErrVal(base=ErrElem(gen))
+                    if pth:
+                        elem = elem.with_field("path", PathV(base=("elem", "path")).appendleft(kw["path"]))
+                    if sp:
+                        elem = elem.with_field("schema_path", PathV(base=("elem", "schema_path")).appendleft(kw["schema_path"]))
+                    expd = ForErr(gen, One(elem)) if (pth or sp) else gen
+                    sname = "%s/F/structure#%d" % (self.name, n)
+                    try:
+                        facts = seqmatch.match(cat(*s.out), expd, s.pc)
+                        all_obls.append(core.Obligation(sname, "F", s.pc, z3.And(facts) if facts else z3.BoolVal(True),
+                                                        note="descend yields iter_errors' errors with path/schema_path prepended exactly when given (C06)"))
+                    except seqmatch.Mismatch as e:
+                        res["obligations"].append({"name": sname, "kind": "F", "status": "failed", "solver": "seqmatch", "time_s": 0.0,
+                                                   "note": "descend structure: %s" % e, "reason": str(e)})
                 ctx_last = ctx
         self.finish(res, ctx_last, all_obls)
 
@@ -298,6 +347,43 @@ class CoreTask:
             else:
                 obls.append(core.Obligation("%s/F/returns#%d" % (self.name, n), "F", s.pc, v,
                                             note="validate returns normally only when iter_errors is empty (C04)"))
+        self.finish(res, ctx, obls)
+
+    def _run_err_set(self, res):
+        """_Error._set(**kwargs): assigns each given field iff it is still unset (innermost wins, C06)"""
+        repo, ctx, st, vm, validator, I = self.setup()
+        del ctx.contracts["exceptions:_Error._set"]
+        unit = repo.unit("exceptions:_Error._set")
+        res["source_hash"] = unit.source_hash()
+        res["function"] = "exceptions:_Error._set"
+        names = ("validator", "validator_value", "instance", "schema")
+        obls = []
+        n = 0
+        for mask in (0b0101, 0b1010, 0b0000, 0b1111):
+            s0 = st.fork()
+            s0.unit = unit
+            oid = ctx.new_oid()
+            old = {nm: (UNSET if (mask >> i) & 1 else SV(z3.Const("old_" + nm, V))) for i, nm in enumerate(names)}
+            s0.heap[oid] = ErrVal("ValidationError", None, dict(old, message=Opaque("m"), path=PathV(), schema_path=PathV(), context=NIL))
+            new = {nm: SV(z3.Const("new_" + nm, V)) for nm in names}
+            for s, ctl in I.run_unit(unit, s0, [ErrRef(oid)], dict(new)):
+                n += 1
+                if ctl[0] == "raise":
+                    obls.append(core.Obligation("%s/S/raise:%s#%d" % (self.name, ctl[1].cls, n), "S", s.pc, False, note="_set raises"))
+                    continue
+                e = s.heap[oid]
+                ok = True
+                goals = []
+                for i, nm in enumerate(names):
+                    want = new[nm] if (mask >> i) & 1 else old[nm]
+                    got = e.fields.get(nm)
+                    if not isinstance(got, SV):
+                        ok = False
+                    else:
+                        goals.append(got.t == want.t)
+                obls.append(core.Obligation("%s/F/fields#%d" % (self.name, n), "F", s.pc, z3.And(goals) if ok else z3.BoolVal(False),
+                                            note="_set fills exactly the fields that were unset (mask %s)" % bin(mask)))
+        res["paths"] = n
         self.finish(res, ctx, obls)
 
     def _run_is_type(self, res):
